@@ -136,9 +136,10 @@ Section Hist.
     end.
   Definition spec_steps (s0 : cscanner) (h : list cop) := spec_steps_from s0 [] h.
 
-  Definition C13_hist_case (symmap : list (string * nat)) (syms : list extval) (p : cparams) (h : list cop)
+  (* csyms: the Compiler::define_symbol calls made before finalize(), in order (distinct names) *)
+  Definition C13_hist_case (csyms : list (string * extval)) (p : cparams) (h : list cop)
              (first : list obs) (steps : list (cout * list obs)) : bool * bool * N :=
-    let s0 := mk_scanner symmap syms p in
+    let s0 : cscanner := scanner_new tt p csyms in
     (list_eqb obs_eqb first (observe_fam [s0]) && list_eqb step_eqb steps (model_steps s0 h),
      list_eqb obs_eqb first (observe_fam [s0]) && list_eqb step_eqb steps (spec_steps s0 h),
      0).
